@@ -54,10 +54,11 @@ type vC14PdScn struct {
 	ExtKs    bool
 	Actions  int
 	Interval time.Duration
+	FailDS   bool // the providers' datastore refuses every write from the moment Close is called
 }
 
 func (s vC14PdScn) String() string {
-	return fmt.Sprintf("N=%d external-keystore=%v actions=%d interval=%v", s.N, s.ExtKs, s.Actions, s.Interval)
+	return fmt.Sprintf("N=%d external-keystore=%v actions=%d interval=%v failing-datastore-at-close=%v", s.N, s.ExtKs, s.Actions, s.Interval, s.FailDS)
 }
 
 type vC14PdRes struct {
@@ -168,6 +169,24 @@ func vC14PdRunInBubble(t *testing.T, c *vh.Case, sc vC14PdScn, target int) *vC14
 	if sc.ExtKs {
 		extKs, _ = keystore.NewKeystore(vjds.New())
 		opts = append(opts, WithKeystore(extKs))
+	}
+	// Fault class: both providers persist their state (provide queue, prefix length) on Close; with a datastore
+	// that refuses writes their Close returns an error. Whatever the inner Close calls return, the wrapper must
+	// still release what it created itself (the internal keystore's worker).
+	var dsFailing atomic.Bool
+	if sc.FailDS {
+		store := vjds.New()
+		store.J.Hook = func(e *vjds.Entry) error {
+			switch e.Op {
+			case vjds.OpPut, vjds.OpDelete, vjds.OpBatch, vjds.OpCommit, vjds.OpSync:
+				if dsFailing.Load() {
+					return errors.New("vC14: injected datastore write failure")
+				}
+			}
+			runtime.Gosched() // the providers call their store under their own locks: never a virtual wait here
+			return nil
+		}
+		opts = append(opts, WithDatastore(store))
 	}
 	p, err := New(d, opts...)
 	if err != nil {
@@ -289,6 +308,7 @@ func vC14PdRunInBubble(t *testing.T, c *vh.Case, sc vC14PdScn, target int) *vC14
 			return 0
 		}
 	}
+	dsFailing.Store(true)
 	took := doClose("Close")
 	res.CloseTook = took
 	c.Check(took <= vC14PdCloseBound, "close-returns-in-bound", "%sClose took %v (bound %v) (%s; closed at event #%d %q, %d RPCs in flight)", tag, took, vC14PdCloseBound, sc, res.CloseIdx, res.CloseLabel, res.InFlight)
@@ -339,11 +359,12 @@ func vC14PdRunInBubble(t *testing.T, c *vh.Case, sc vC14PdScn, target int) *vC14
 
 func TestVerif_C14_provider_dual(t *testing.T) {
 	vh.Run(t, vh.Spec{Prop: "C14", Unit: "provider_dual", Quick: 16, Thorough: 500, CostMs: 350,
-		Rule:    "PRNG provider/dual.SweepingProvider over a dual.DHT on one fake host (10-40 simulated peers half public / half private, 16% failing, RPC latency 3-200 ms; internal or external keystore; reprovide interval 2 min or 1 h) with 2-6 StartProviding/ProvideOnce/StopProviding/Clear/RefreshSchedule calls; boundary events (wire log, API calls) counted after the providers' initial probes; reference run closes after everything, re-runs Close at 2 events on a provider goroutine's stack and 2 PRNG indices (thorough: up to 48); non-trivial = Close with RPCs in flight",
+		Rule:    "PRNG provider/dual.SweepingProvider over a dual.DHT on one fake host (10-40 simulated peers half public / half private, 16% failing, RPC latency 3-200 ms; internal or external keystore; reprovide interval 2 min or 1 h; with an internal keystore every other case gives the providers a datastore that refuses all writes once Close is called, so that their Close returns an error) with 2-6 StartProviding/ProvideOnce/StopProviding/Clear/RefreshSchedule calls; boundary events (wire log, API calls) counted after the providers' initial probes; reference run closes after everything, re-runs Close at 2 events on a provider goroutine's stack and 2 PRNG indices (thorough: up to 48); non-trivial = Close with RPCs in flight",
 		Clauses: []string{"baseline-clean", "close-returns-in-bound", "no-goroutine-after-close", "close-again-returns", "api-no-panic", "dht-left-running", "no-goroutine-after-2min"}},
 		func(c *vh.Case) {
 			r := c.R
 			sc := vC14PdScn{Seed: r.Int63(), N: 10 + r.Intn(31), ExtKs: r.Intn(2) == 0, Actions: 2 + r.Intn(5), Interval: []time.Duration{2 * time.Minute, time.Hour}[r.Intn(2)]}
+			sc.FailDS = !sc.ExtKs && c.Idx%2 == 1 // no PRNG draw: the other cases stay as they were
 			c.Set("scenario", sc.String())
 			c.Set("seed", sc.Seed)
 			ref := vC14PdRun(t, c, sc, 0)
